@@ -341,6 +341,9 @@ def value_desc(cls_key, prop, simple_json=False):
     s = kind_strategy(kind, cls_key, simple_json)
     if prop == "boot_script":
         s = s.filter(lambda x: len(x) < 1024)
+    if prop in ("boot_script", "details"):
+        # free-text properties: the empty string is a legal value, distinct from "not set"
+        s = st.one_of(s, s, s, st.just(""))
     return s
 
 
